@@ -6,11 +6,21 @@
 // reference PEG interpreter runs on the same bytes; success/failure, the fatal flag, the stream position after a
 // success and the produced value (flattened to integers) must agree for ALL byte values.  n is a shape parameter.
 //
-// Outside the claim (whole property C02): wchar_t; the TEXT of error messages (the char-set formatting through
-// ostringstream is replaced by an engine-only stub, see C02_common.hpp); float_; positions after a FAILED parse
-// (not specified by the documentation); std::basic_istringstream inside phrase_parse_string / parse_string (the
-// string entry points are exercised in C02_entry.cpp through the C12 istream contract model); the catch handler of
-// phrase_parse (needs a throwing stream, see C12); grammars outside the family.
+// Outside the claim (whole property C02):
+//  * the TEXT of error messages (only success/failure and the fatal flag are compared).  Two formatting helpers that go
+//    through ostringstream are replaced IN THE ENGINE by fixed strings (//@stub): output_to_string_locale(
+//    container::output(char set)) -> c02_set_text, output_to_string_locale(location) -> c02_loc_text (C02_entry);
+//  * float_ (floating point); the numeric conversion inside uint / int_ (fcppt::extract_from_string, an istringstream)
+//    is replaced in the engine by its contract (C02_skip.cpp), the native replays run the real one;
+//  * positions after a FAILED parse (not specified by the documentation);
+//  * std::basic_istringstream inside phrase_parse_string / parse_string / grammar_parse_string: C02_entry.cpp runs the
+//    rest of their bodies (phrase_parse_stream + detail::consume_remaining on the real detail::stream) over the C12
+//    istream contract model; the catch handler of phrase_parse (exceptions of a failing stream, see C12) is not executed;
+//  * wchar_t: C02_wide.cpp covers the wide leaf parsers, the combinators and a wide skipper over a symbolic wchar_t
+//    array; wide numbers / wide string entry points are not covered;
+//  * grammars outside the family; input lengths above the bounds of the //@harness lines (quick <= 3..4, thorough <= 6);
+//  * recursion deeper than the input length allows; repetition of nullable parsers / left recursion (excluded by the
+//    property's quantifier).
 //@property C02
 //@stub ^_ZN5fcppt23output_to_string_localeI.*9container6detail6outputI c02_set_text
 #include "C02_common.hpp"
